@@ -21,7 +21,8 @@ CONSTANTS Long,        \* long strings (> 15 bytes): stored in the table
           MaxSlots,    \* bound on the table length            (model checking only)
           MaxMods,     \* bound on the module-reference table  (model checking only)
           WorkUnits,   \* sweep work units to try              (model checking only)
-          MaxCounter   \* bound on counter allocations         (model checking only)
+          MaxCounter,  \* bound on counter allocations         (model checking only)
+          AllocWhileCounter  \* TRUE: ordinary strings may be allocated while a counter is outstanding
 
 Strings == Long \cup Short
 NoStr   == ""          \* the padding string alloc_temp_str / sync_temp_counter push
@@ -123,18 +124,20 @@ IdsOf(parts) == { parts[k].i : k \in { j \in 1..Len(parts) : parts[j].t = "id" }
 Issue(h, s) == issued' = issued \cup {[h |-> h, s |-> s, perm |-> FALSE]}
 IssuePerm(h, s) == issued' = issued \cup {[h |-> h, s |-> s, perm |-> TRUE]}
 
-\* The optimizer protocol: while a TempPStrCounter is outstanding nothing else grows the table.
+\* The optimizer protocol: while a TempPStrCounter is outstanding the heap hands out no temporary names of its own
+\* (they would collide with the counter's); ordinary strings may still be allocated (the inliner does), so the table
+\* can be longer than the counter when it is synchronised.
 Growable == ~counter.active
 
 AllocString(s) ==
-  /\ Growable
+  /\ (Growable \/ AllocWhileCounter)
   /\ LET r == StringF(table, internTemp, internPerm, s) IN
        /\ table' = r[1] /\ internTemp' = r[2] /\ internPerm' = r[3]
        /\ Issue(r[4], s)
   /\ UNCHANGED <<modules, unmarked, sweepIdx, counter, reclaimed, markedSince, tempNames>>
 
 AllocStatic(s) ==
-  /\ Growable
+  /\ (Growable \/ AllocWhileCounter)
   /\ LET r == StaticF(table, internTemp, internPerm, s) IN
        /\ table' = r[1] /\ internTemp' = r[2] /\ internPerm' = r[3]
        /\ IssuePerm(r[4], s)
